@@ -463,6 +463,11 @@ class Scaling(Interp):
             if isinstance(target, SV) and target.kind in ("sig", "out") and len(rest) == 2 and len(node.args) == 2 and unparse(node.args[1]) == "-1":
                 return replace(target, axes="rows")  # (batch, everything else): one row per item
             return target
+        if short in ("pow", "square") and target is not None and ((short == "square" and not rest) or (short == "pow" and len(rest) == 1 and not kw)):
+            # t.pow(q) / torch.pow(t, q) / t.square(): the ** operator
+            expo = ast.Constant(value=2) if short == "square" else (node.args[-1])
+            base_node = node.func.value if isinstance(node.func, ast.Attribute) and not (call_name(node) or "").startswith("torch.") else node.args[0]
+            return self.eval(ast.copy_location(ast.BinOp(left=base_node, op=ast.Pow(), right=expo), node), env)
         if short in ("abs", "absolute") and target is not None:
             if target.kind == "sig":
                 return SV("sigabs", target.m, src=target.src, axes=target.axes)
@@ -484,6 +489,13 @@ class Scaling(Interp):
             return unk(f"sqrt of {target.show()}")
         if short in ("mean", "sum") and target is not None:
             return self.reduce(short, target, rest, kw, kwnodes, node)
+        if short in ("var", "std") and target is not None and target.kind == "sig" and target.m is not None:
+            # the variance of the signal (mean removed) is another statistic than its mean power E|x|^2 / N: it is carried as
+            # its own symbol, so a law that uses it never matches a law stated in the signal power
+            m = target.m.pow(Fraction(2)) * Mono.sym(f"VAR[{target.src}]")
+            if short == "std":
+                m = m.pow(Fraction(1, 2))
+            return SV("det", m, axes="all" if not rest and "dim" not in kw else None) if m is not None else unk("variance")
         if short in ("max", "amax") and target is not None:
             if target.kind == "sigpow":
                 return SV("det", target.m * Mono.sym(f"PK[{target.src}]"), axes="all" if not rest and "dim" not in kw else None)
